@@ -330,9 +330,10 @@ PROPS['C05'] = dict(
          '(the four derived ones and the non-linear (k ?v ?v), (add ?v ?v)) is compared with the list computed by the Lean model of '
          'ematch_all/ematch_impl/ematch_node/final_subst + enodes_applied on the dumped state (query `ematch`), as sets modulo the names '
          'of fresh slots (numbered by first appearance, variables in name order) and modulo the symmetries of the bound classes '
-         '(smallest rendering over the orbit).',
-    trusted_base=EG_TRUST + ['multi_ematch is not modelled (only its results are judged); the single-pattern matcher is modelled and compared as '
-                             'match SETS: the order of matches, the identity of fresh slots and the choice among symmetric representatives '
+         '(smallest rendering over the orbit, ties kept). The same for multi_ematch (query `mmatch`) against the Lean model of '
+         'src/rewrite/multipat.rs.',
+    trusted_base=EG_TRUST + ['both matchers are modelled (Model/EMatch.lean, Model/MultiMatch.lean) and compared as '
+                             'match SETS (multi-patterns only when (largest symmetry group)^(number of equations) <= 3000: the list-based model is ~100x slower than the code; a match whose canonical numbering has more than 48 equally good candidates is compared in a coarse form): the order of matches, the identity of fresh slots and the choice among symmetric representatives '
                              '(all consequences of hash-set iteration order) are abstracted by the canonical rendering, implemented twice '
                              '(Lean driver, Rust harness)'],
     assumptions=COMMON_ASSUME,
@@ -342,7 +343,8 @@ PROPS['C04'] = dict(
     level='translation_validation',
     module='SlotVerif.Props.C04',
     suites=[dict(name='plant', variant='default', shrink=False, quick=dict(count=1500, timeout=900), thorough=dict(count=40000, timeout=3000)),
-            dict(name='plant', variant='checks', shrink=False, quick=dict(count=400, timeout=900), thorough=dict(count=8000, timeout=3000))],
+            dict(name='plant', variant='checks', shrink=False, quick=dict(count=400, timeout=900), thorough=dict(count=8000, timeout=3000)),
+            dict(name='mat', variant='default', shrink=False, quick=dict(count=500, timeout=900), thorough=dict(count=20000, timeout=3000))],
     rule='corr.match.complete: the harness PLANTS instances: a random term (every bound name bound once, binder names apart from free '
          'names), a left pattern abstracted from it (random subterms become pattern variables, identical subterms share one; subterms '
          'under binders included; all slots renamed injectively to pattern slot names), a right pattern over the same variables '
@@ -352,7 +354,7 @@ PROPS['C04'] = dict(
          'discarded (scope of the property) and counted. Then: the Lean checker must accept the planted substitution for the left '
          'pattern on the dumped state; one apply_rewrites of the rule; the right instance must be found by lookup_rec_expr and be eq to '
          'the left instance, and the Lean checker must accept the substitution for the right pattern on the new dump. '
-         'non-trivial = the instance is present only up to equality; distinct = by hash of the case line',
+         'non-trivial = the instance is present only up to equality; distinct = by hash of the case line Third suite (mat, shared with C05): the complete match list of every queried pattern is compared with the list the Lean model of the matcher computes on the dumped state — a match the implementation misses (or invents) relative to the modelled algorithm is a difference.',
     trusted_base=EG_TRUST + ['the harness-side construction of the expected right instance (pattern instantiation and slot renaming) '],
     assumptions=COMMON_ASSUME + ['scope as stated in the property: no class with a redundant slot, bound names bound once and not used free'],
 )
